@@ -14,7 +14,10 @@ Fresh, FreshCookiesOpen) is
      breadth-first; each exchange may have an earlier reply delivered before / instead of /
      after the genuine one) which harness/c11 applies to the real IPClient + NTS-KE server + NTP
      server through a recording UDP proxy (live, in-process, loopback), next to a
-     function-level pass over every pool level and every reply size;
+     function-level pass over every pool level and every reply size; the generator runs about
+     half of the behaviours with the real SCIONClient instead (same-AS empty path, the proxy as
+     next hop, the lane's SCION listener answering), for which the network may also deliver
+     SCMP messages to the waiting client before / instead of the genuine reply (action Scmp);
  (3) used by spec/trace/NtsCookiesTrace.tla to validate every recorded event
      (monitor = the property section on the recorded states/steps -> VIOLATION;
       strict  = each step is the one NtsCookies takes -> DRIFT).
@@ -96,11 +99,18 @@ class _Validator:
         return r["out"]
 
 
-def _signature(clause, e, prev):
+def _signature(clause, e, prev, client="ip"):
     sig = _signature0(clause, e, prev)
-    if sig and e.get("ev") == "probe" and e.get("tr") == "scion":
-        sig += " scion"
+    if sig and clause in _SERVER_CLAUSES:
+        if e.get("ev") == "probe" and e.get("tr") == "scion":
+            sig += " scion"             # a reply of the SCION listener to a foreign request
+    elif sig and client == "scion":
+        sig += " scion-client"          # a clause about the client's pool / requests in a behaviour of the SCION client
     return sig
+
+
+# clauses about what the server sends (the others are about the client's pool and requests)
+_SERVER_CLAUSES = ("RespFits", "RespCount", "ProbeAnswered", "FreshCookiesOpen", "RealOpens", "Fresh", "Answered")
 
 
 def _signature0(clause, e, prev):
@@ -186,7 +196,7 @@ def run(ctx):
     design_f = bg.submit(design)
 
     # ---- 2. schedules from the specification
-    num = 150 if q else 1000
+    num = 200 if q else 1200
     g = ctx.tlc("NtsCookiesGen", "NtsCookies_gen.cfg" if q else "NtsCookies_gendeep.cfg", workers=1, timeout=600,
                 simulate="num=%d" % num, depth=400, tag="gen")
     beh = ctx.emitted(g["out"])
@@ -196,12 +206,20 @@ def run(ctx):
     if not q:      # thorough: all schedules of 4 exchanges (plain network) and of 3 exchanges (with earlier replies)
         gx3 = ctx.tlc("NtsCookiesGen", "NtsCookies_genexh.cfg", workers=1, timeout=600, tag="genexh3")
         behx += ctx.emitted(gx3["out"])
-    if len(beh) < num // 2 or len(behx) < 100:
-        raise vlib.Inconclusive("generators produced only %d + %d schedules" % (len(beh), len(behx)))
+    # the SCION client: all schedules of 2 (thorough: 3) exchanges, each with losses, an earlier reply and / or
+    # an SCMP message handed to the waiting client
+    gxs = ctx.tlc("NtsCookiesGen", "NtsCookies_genexhsc.cfg" if q else "NtsCookies_genexhscdeep.cfg", workers=1,
+                  timeout=600, tag="genexhsc")
+    behxs = ctx.emitted(gxs["out"])
+    if len(beh) < num // 2 or len(behx) < 100 or len(behxs) < 100:
+        raise vlib.Inconclusive("generators produced only %d + %d + %d schedules" % (len(beh), len(behx), len(behxs)))
     biases = collections.Counter(b["bias"] for b in beh)
     if not all(biases.get(k) for k in range(6)):
         raise vlib.Inconclusive("schedule generator did not produce every loss bias: %s" % dict(biases))
-    cases = beh + behx
+    clients = collections.Counter(b["tr"] for b in beh)
+    if not clients.get("ip") or not clients.get("scion"):
+        raise vlib.Inconclusive("schedule generator did not produce behaviours of both clients: %s" % dict(clients))
+    cases = beh + behx + behxs
     # vacuity guards on the specification's side: how often the generated behaviours exercise
     # the network's memory and associations that outlive key rotations
     gstat = collections.Counter()
@@ -210,7 +228,8 @@ def run(ctx):
     gstat.pop("had1", None)
     gstat["late"] = gstat["same"] - gstat["dup"]
     lacking = [k for k in ("same", "before", "dup", "late", "other", "second", "stray", "oldserve", "span1",
-                           "span2", "oldprobe") if not gstat[k]]
+                           "span2", "oldprobe", "sx", "sxstore", "sxrekey", "scmp", "scmpbefore", "scmpinstead",
+                           "scmpmixed", "scmpsecond") if not gstat[k]]
     if lacking:
         raise vlib.Inconclusive("generated schedules never exercise: %s (%s)" % (lacking, dict(gstat)))
     ctx.notes.append(
@@ -222,10 +241,18 @@ def run(ctx):
         "rotations after the key exchange with a request in between), %d foreign requests under an older key"
         % (len(cases), gstat["same"], gstat["before"], gstat["dup"], gstat["late"], gstat["other"], gstat["second"],
            gstat["stray"], gstat["oldserve"], gstat["span1"], gstat["span2"], gstat["oldprobe"]))
+    nsc = sum(1 for b in cases if b["tr"] == "scion")
+    ctx.notes.append(
+        "SCION client dimension (spec side): %d of the %d generated behaviours are run with the SCION client (%d requests, "
+        "%d successful exchanges, %d key exchanges); SCMP messages (destination unreachable / echo reply / parameter "
+        "problem) handed to the waiting client: %d (%d before a genuine reply that was then delivered, %d when nothing "
+        "genuine was on its way, %d in an exchange that also saw an earlier reply, %d that ended the call)"
+        % (nsc, len(cases), gstat["sx"], gstat["sxstore"], gstat["sxrekey"], gstat["scmp"], gstat["scmpbefore"],
+           gstat["scmpinstead"], gstat["scmpmixed"], gstat["scmpsecond"]))
     cp = ctx.path("cases.ndjson")
     vlib.write_ndjson(cp, cases)
-    ctx.log("schedules: %d random walks (biases %s) + %d exhaustive short ones" %
-            (len(beh), dict(sorted(biases.items())), len(behx)))
+    ctx.log("schedules: %d random walks (biases %s, clients %s) + %d exhaustive short ones + %d of the SCION client" %
+            (len(beh), dict(sorted(biases.items())), dict(clients), len(behx), len(behxs)))
 
     # ---- 3. the real code
     # (the test's own time limit is below the outer one: a driver that hangs reports its goroutines)
@@ -275,11 +302,36 @@ def run(ctx):
                 stale_then_genuine += st and not lost
                 stale_ok += st and e["ok"]
     oldkey_probes = sum(1 for e in events if e["ev"] == "probe" and e["kb"] > 1 and e["kv"])
+    # the SCION client's lanes: requests seen by the proxy, SCMP messages it delivered, and the genuine reply
+    # handed over after one (facts about the environment)
+    client_of = {b[0]["b"]: b[0].get("tr", "ip") for b in behs}
+    scion_req = sum(1 for e in events if e["ev"] == "req" and not e["fn"] and client_of[e["b"]] == "scion")
+    scion_rekey = sum(1 for e in events if e["ev"] == "rekey" and client_of[e["b"]] == "scion")
+    scion_levels = sorted({e["p"] for e in events if e["ev"] == "req" and not e["fn"] and client_of[e["b"]] == "scion"})
+    scmp_types = collections.Counter(e["typ"] for e in events if e["ev"] == "scmp")
+    scmp_then_genuine = 0
+    for b in behs:
+        sm = lost = False
+        n = 0
+        for e in b:
+            if e["ev"] == "req":
+                sm = lost = False
+                n = 0
+            elif e["ev"] in ("scmp", "stale"):
+                sm = sm or e["ev"] == "scmp"
+                n += 1
+            elif e["ev"] in ("losereq", "loseresp", "norep"):
+                lost = True
+            elif e["ev"] == "done":
+                scmp_then_genuine += sm and not lost and n == 1
     need = dict(req=cnt["req"], rep=cnt["rep"], losereq=cnt["losereq"], loseresp=cnt["loseresp"],
                 norep=cnt["norep"], tick=cnt["tick"], rekey=cnt["rekey"], probe=cnt["probe"],
                 stale=cnt["stale"], stray=cnt["stray"], stale_then_genuine_delivered=stale_then_genuine,
                 probes_under_older_key=oldkey_probes,
-                rotated_replies=rotated, requests_under_retired_key=retired)
+                rotated_replies=rotated, requests_under_retired_key=retired,
+                scion_client_requests=scion_req, scion_client_rekeys=scion_rekey, scmp=cnt["scmp"],
+                scmp_unreach=scmp_types["unreach"], scmp_echorep=scmp_types["echorep"], scmp_param=scmp_types["param"],
+                scmp_then_genuine_delivered=scmp_then_genuine)
     ctx.log("coverage: %s; %d exchanges succeeded after an earlier reply had been delivered first; live pool levels %s, function-level pool levels %s, behaviours with re-keying %d, "
             "panics %d, probe sizes %s x unique-id lengths %s (%d replies capped because of the identifier); "
             "%d probes of the SCION listener (%d answered well, %d after a key rotation)" %
@@ -321,7 +373,7 @@ def run(ctx):
         badb = set()
         for clause, pos in viol:
             e = evs[pos - 1]
-            sig = _signature(clause, e, None)
+            sig = _signature(clause, e, None, client_of.get(e.get("b"), "ip"))
             if sig is None:
                 continue
             badb.add(e["b"])
